@@ -68,6 +68,15 @@ def field (toks : List String) (k : String) : String :=
 /-- acceptable outcomes, optional note -/
 def handle (l : Line) : Option (List String × Option String) := do
   let (c, ssh, fill) ← parseChain l
+  if l.verbs[1]? == some "chainpd" then
+    -- the partial decoder over a stored value: wherever the model's full decoder accepts the value, every in-bounds region is
+    -- the slice of the decoded chunk; a value the full decoder rejects carries no requirement here (a partial read need not
+    -- touch the offending bytes)
+    let b ← parseHex (← l.get "bytes")
+    let rs ← ((← l.get "rs").splitOn "|").mapM DriverC01.parseSubset
+    return ([match c.decode ssh fill b with
+             | some xs => "val " ++ "|".intercalate (rs.map (fun r => DriverC01.showElems (r.extract ssh xs)))
+             | none => l.outcome], none)
   if l.verbs[1]? == some "chaindec" then
     let b ← parseHex (← l.get "bytes")
     return ([match c.decode ssh fill b with
